@@ -8,13 +8,14 @@ one() {
   rm -rf $wt $out; git -C /repo worktree add -q --detach $wt HEAD 2>/dev/null || { echo "$pf: worktree failed"; return; }
   if ! git -C $wt apply $pf 2>/dev/null; then echo "$pf: PATCH DOES NOT APPLY"; git -C /repo worktree remove --force $wt; return; fi
   hits=""
-  for q in $PROPS; do
+  PL="$PROPS"; [ -n "${TARGETED:-}" ] && PL=$(python3 /verif/tools/props_for.py $pf)
+  for q in $PL; do
     o=$(VERIF_OUT=$out python3-vt -m hv.check $q --repo $wt 2>&1); rc=$?
     if [ $rc = 1 ]; then hits="$hits $q(FALSE-ALARM:$(echo "$o" | grep -m1 '  rule' | cut -c1-160))"; elif [ $rc = 2 ]; then hits="$hits $q(ERR:$(echo "$o" | grep -m1 ANALYSIS | cut -c1-200))"; fi
   done
   git -C /repo worktree remove --force $wt; rm -rf $out
   echo "$pf: ${hits:- silent}"
 }
-export -f one; export PROPS
+export -f one; export PROPS TARGETED
 ls ${@:-/verif/refactors/*/patch.diff} | xargs -P 12 -I{} bash -c 'one {}' | sort
 git -C /repo worktree prune
